@@ -6,7 +6,16 @@ EXTENDS Wal, Json
 
 CONSTANTS EmitOn
 
+(* entry-record sizes in words (length word included).  With the 8-word head of Create (crc 2, metadata 3,
+   snapshot 3) and the 3-word state record that ends a save: 5 stays inside a sector; 53 makes the save end
+   exactly on the first sector boundary (8+53+3 = 64); 70 straddles one boundary; 140 spans more than two
+   sectors and, twice, pushes the file offset past SegWords = 256 so that the next save cuts. *)
 EntSizesQ == {5, 53, 70, 140}
+EntSizes3 == {5, 53, 140}
+EntSizesD == {5, 53, 140}
+(* nil metadata (2-word record, no Data: the chain value stays 0 through the head) and 1 KB segments:
+   head = 7 words, 54 ends on the boundary (7+54+3), 120 passes SegWords = 128 *)
+EntSizesN == {4, 54, 120}
 AppSizesQ == {5, 64}
 
 LastIdxOf(s) == IF s.ents = <<>> THEN 0 ELSE log[s.ents[Len(s.ents)]].idx
